@@ -17,40 +17,8 @@ set_option linter.unusedVariables false
 set_option linter.unusedSimpArgs false
 set_option linter.unusedSectionVars false
 
-/-! ### the instants read off a history -/
-
-/-- the clock in the first state, along the run of `evs` from `st`, that satisfies `P` (`none`: there is none) -/
-def firstNow (c : Cfg) (P : StB → Bool) : StB → List EvB → Option Nat
-  | st, [] => if P st then some st.a.now else none
-  | st, e :: es =>
-    if P st then some st.a.now else
-    match stepB c st e with
-    | some st' => firstNow c P st' es
-    | none => none
-
-/-- the body of job `j` (the run of scheduler `j`) has begun: `_running`, set in the very step in which the job
-    obtains its slot and its body is entered (`grant j`; `runBegin` for the top-level scheduler `0`), never reset.
-    For a scheduler this is `pcB j ≠ .notBegun` (`beganP_sched`), for an atomic job "the task is executing or has
-    finished" (`beganP_iff`). -/
-def beganP (j : Nat) (st : StB) : Bool := st.a.rflag j
-
-/-- the task of job `j` has finished: it returned, raised or was cancelled -/
-def finished : Ph → Bool
-  | .done _ => true
-  | .cancelled => true
-  | _ => false
-
-/-- the body of job `j` has ended; for a scheduler (the top-level one included): its run is over and its task
-    has finished, it is a finished job of its parent (`endedP_sched`: this is `pcB j = .over`) -/
-def endedP (j : Nat) (st : StB) : Bool := finished (st.a.ph j)
-
-/-- the instants at which the jobs began and ended in the history `evs` (`0` for what never happens) -/
-def timingOf (c : Cfg) (evs : List EvB) : Timing where
-  B := fun j => (firstNow c (beganP j) StB.init evs).getD 0
-  E := fun j => (firstNow c (endedP j) StB.init evs).getD 0
-
-/-- the time each body took -/
-def durOf (c : Cfg) (evs : List EvB) : Nat → Nat := fun j => (timingOf c evs).E j - (timingOf c evs).B j
+/-! ### the instants read off a history: `firstNow`, `beganP`, `finished`, `endedP`, `timingOf`, `durOf` are in
+  `Model/Flat.lean` (the driver executes them) -/
 
 /-! ### `firstNow`: generic facts -/
 
@@ -64,7 +32,8 @@ theorem firstNow_cons (c : Cfg) (P : StB → Bool) (st : StB) (e : EvB) (es : Li
       match stepB c st e with
       | some st' => firstNow c P st' es
       | none => none := by
-  simp only [firstNow]
+  -- (the `match` of this statement and that of the definition, now in another file, are two matchers)
+  simp only [firstNow]; rfl
 
 theorem firstNow_pos (c : Cfg) (P : StB → Bool) (st : StB) (evs : List EvB) (h : P st = true) :
     firstNow c P st evs = some st.a.now := by
@@ -726,35 +695,16 @@ theorem nothing_fails (c : Cfg) (hwf : c.wf = true) (evs : List EvB)
   have hC := (good_of_visits c hwf hplain evs hok hnf x rest hv).clean
   ⟨hC.noCreq, hC.noCan, hC.noExc, hC.okExit⟩
 
-/-! ### decidable forms of the hypotheses on the history -/
-
-/-- no body raises -/
-def okCheck (evs : List EvB) : Bool :=
-  evs.all fun e => match e with | .bodyEnd _ ok => ok | _ => true
+/-! ### decidable forms of the hypotheses on the history (`okCheck`, `nfCheck`, `zeroCheck`: `Model/Flat.lean`) -/
 
 theorem okCheck_spec (evs : List EvB) (h : okCheck evs = true) : ∀ j ok, EvB.bodyEnd j ok ∈ evs → ok = true := by
   intro j ok hm
   exact List.all_eq_true.1 h _ hm
 
-/-- no orchestration fails -/
-def nfCheck (evs : List EvB) : Bool :=
-  evs.all fun e => match e with | .orchFail _ => false | _ => true
-
 theorem nfCheck_spec (evs : List EvB) (h : nfCheck evs = true) : ∀ s, EvB.orchFail s ∉ evs := by
   intro s hm
   have := List.all_eq_true.1 h _ hm
   cases this
-
-/-- no shutdown handler is pending in a state in which the clock advances -/
-def zeroCheck (c : Cfg) : StB → List EvB → Bool
-  | _, [] => true
-  | st, e :: es =>
-    (match e with
-     | .tick _ => (List.range c.n).all fun k => st.hph k != .hactive
-     | _ => true) &&
-    (match stepB c st e with
-     | some st' => zeroCheck c st' es
-     | none => true)
 
 theorem zeroCheck_spec (c : Cfg) (evs : List EvB) :
     ∀ st, zeroCheck c st evs = true →
